@@ -250,4 +250,67 @@ theorem readBytes (buf : List UInt8) (h : buf.length < 2^63) :
       generalize (BitVec.ofNat 64 (List.map (fun x => x.toBitVec) r).length).slt (BitVec.ofNat 64 (int32Of N).toNat) = cnd
       cases cnd <;> simp [res, pure, P.pure]
 
+/-! ### `readConsistency` (`return Consistency(f.readShort())`: the effectful call is hoisted into a let) and `readInetAdressOnly` -/
+
+theorem readConsistency (buf : List UInt8) (h : buf.length < 2^63) :
+    res (·.toNat) (Gen.Frame.framer_readConsistency (buf.map (·.toBitVec))) = FrameRead.readConsistency buf := by
+  have e : Gen.Frame.framer_readConsistency (buf.map (·.toBitVec)) = Gen.Frame.framer_readShort (buf.map (·.toBitVec)) := by
+    unfold Gen.Frame.framer_readConsistency
+    cases Gen.Frame.framer_readShort (buf.map (·.toBitVec)) with
+    | none => rfl
+    | some x => rfl
+  rw [e]; exact readShort buf h
+
+theorem goCopy_full (n : Nat) (src : List (BitVec 8)) (h : src.length = n) :
+    Gen.Frame.goCopyAt (List.replicate n 0#8) 0 src = src := by
+  unfold Gen.Frame.goCopyAt
+  simp [h]
+  exact List.take_of_length_le (by omega)
+
+theorem sliceCopyTie (r : List UInt8) (n : Nat) (hr : r.length < 2^63) (hn : n < 2^63) :
+    res (·.map UInt8.ofBitVec)
+      (if BitVec.slt (BitVec.ofNat 64 (r.map (·.toBitVec)).length) (BitVec.ofNat 64 n) then none
+       else some ((r.map (·.toBitVec)).drop n,
+         Gen.Frame.goCopyAt (List.replicate n 0#8) 0 ((r.map (·.toBitVec)).take n))) = slice n n r := by
+  by_cases h : r.length < n
+  · rw [List.length_map, slt_ofNat _ _ hr hn]
+    simp [h, res, slice]
+  · rw [goCopy_full n _ (by simp; omega)]
+    exact sliceTie r n hr hn
+
+theorem mod_inet_nil : FrameRead.readInetAdressOnly [] = .err := rfl
+
+theorem mod_inet_cons (a : UInt8) (r : List UInt8) :
+    FrameRead.readInetAdressOnly (a :: r)
+      = if (!(a.toNat == 4 || a.toNat == 16)) = true then .err else slice a.toNat a.toNat r := by
+  by_cases hok : (a.toNat == 4 || a.toNat == 16) = true
+  · simp [FrameRead.readInetAdressOnly, bind, P.bind, slice, hok]
+  · have hok' : (a.toNat == 4 || a.toNat == 16) = false := by simpa using hok
+    simp [FrameRead.readInetAdressOnly, bind, P.bind, slice, hok', P.fail]
+
+theorem readInetAdressOnly (buf : List UInt8) (h : buf.length < 2^63) :
+    res (·.map UInt8.ofBitVec) (Gen.Frame.framer_readInetAdressOnly (buf.map (·.toBitVec))) = FrameRead.readInetAdressOnly buf := by
+  rcases buf with _ | ⟨a, r⟩
+  · rfl
+  · rw [mod_inet_cons]
+    unfold Gen.Frame.framer_readInetAdressOnly
+    rw [List.length_map, show (0x1#64 : BitVec 64) = BitVec.ofNat 64 1 from rfl, slt_ofNat _ _ h (by decide)]
+    have hr : r.length < 2^63 := by simp at h; omega
+    have h0 : ¬ (r.length + 1 < 1) := by omega
+    simp only [List.length_cons, h0, decide_false, Bool.false_eq_true, if_false, List.map_cons, List.getD_cons_zero, List.drop_succ_cons,
+      List.drop_zero]
+    have hsz : a.toBitVec.setWidth 64 = BitVec.ofNat 64 a.toNat := by
+      apply BitVec.eq_of_toNat_eq; have := UInt8.toNat_lt a; simp
+    have e4 : ∀ b : BitVec 8, (b == 0x4#8) = (b.toNat == 4) := by decide
+    have e16 : ∀ b : BitVec 8, (b == 0x10#8) = (b.toNat == 16) := by decide
+    rw [e4, e16, hsz]
+    simp only [UInt8.toNat_toBitVec]
+    have ha := UInt8.toNat_lt a
+    by_cases hok : (a.toNat == 4 || a.toNat == 16) = true
+    · simp only [hok, Bool.not_true, Bool.false_eq_true, if_false]
+      exact sliceCopyTie r a.toNat hr (by omega)
+    · have hok' : (a.toNat == 4 || a.toNat == 16) = false := by simpa using hok
+      simp only [hok', Bool.not_false, if_true]
+      rfl
+
 end GenTie.FrameRd
